@@ -64,7 +64,7 @@ REVERTS = [  # (commit, properties whose quick check is run)
     ("855a86a", ["C05"]), ("8c1da84", ["C13"]), ("3bece1a", ["C13"]), ("330fbc3", ["C01", "C03"]), ("184c93f", ["C03"]),
     ("e922775", ["C16"]), ("304d28c", ["C19"]), ("95cd20b", ["C14"]), ("c5b083a", ["C12"]), ("d31ff6b", ["C04"]),
     ("4963296", ["C03"]), ("4e959e4", ["C01"]), ("d1d7686", ["C16"]), ("dfc81a2", ["C18"]), ("3249f17", ["C19"]),
-    ("a399f10", ["C19"]), ("b81f3af", ["C20"]), ("4671d0b", ["C14"]),
+    ("a399f10", ["C19"]), ("b81f3af", ["C20"]), ("4671d0b", ["C14"]), ("e34c909", ["C11"]),
 ]
 
 
